@@ -186,6 +186,13 @@ def run(ctx):
                         'the run can be left (%s) without setting the terminate event: the idle worker polls forever' % n.info['exit'],
                         witness=dr.path_to(n, s), exit=n.info['exit']))
 
+    cd.instance('run_comparison: a GeneratorExit at a yield is never answered by another yield (the finally runs)', runc.qualname, not dr.yield_after_close)
+    if dr.yield_after_close:
+        node, st = dr.yield_after_close[0]
+        res.add(Finding('C13', 'C13.d', 'R-TYPESTATE', runc.file, runc.qualname, node.line, 'yield after GeneratorExit',
+                        'a handler of the run swallows the GeneratorExit of an abandoned run and yields again: the terminate signal is never set and the '
+                        'worker stays alive', witness=dr.path_to(node, st)))
+
     # ---------------- C13.e recycle bound
     if age is None:
         raise AnalysisError('anchor-lost role=worker age field (reset to 0 where the worker is created)')
@@ -217,6 +224,42 @@ def run(ctx):
         res.add(Finding('C13', 'C13.e', 'R-ABSINT', ww.file, ww.qualname, node.line if node else ww.node.lineno, 'age increments before dispatch',
                         'a task is handed to the worker on a path with %s age increments: the worker can serve more replays than the recycle rate'
                         % (st.extra.get(('n', 'inc:' + age), 0) if st else 'no'), witness=dw.path_to(node, st) if node is not None and (node.id, st.key()) in dw.pred else None))
+    # each id is dispatched exactly once per call of the dispatch routine
+    badp = [(n, s) for n, s in dw.exits if s.extra.get(('n', '%s.put' % taskq), 0) > 1]
+    ce.instance('the dispatch routine queues its task exactly once (no silent re-submission)', ww.qualname, not badp)
+    if badp:
+        n, s = badp[0]
+        res.add(Finding('C13', 'C13.e', 'R-ABSINT', ww.file, ww.qualname, ww.node.lineno, 'task queued more than once',
+                        'one call of the dispatch routine can queue the recording more than once: it is replayed twice and its first replay is not counted '
+                        'against the worker\'s age / timeout', witness=dw.path_to(n, s)))
+    # the terminate event is clear again whenever the dispatch routine is left (a later worker must not start already-terminated)
+    bade = [(n, s) for n, s in dw.exits if s.extra.get('ev:' + term) == 'set']
+    ce.instance('the terminate event is clear at every exit of the dispatch routine', ww.qualname, not bade)
+    if bade:
+        n, s = bade[0]
+        res.add(Finding('C13', 'C13.e', 'R-ABSINT', ww.file, ww.qualname, ww.node.lineno, 'terminate event left set',
+                        'the dispatch routine can be left (%s) with the shared terminate event still set: every worker created afterwards exits '
+                        'immediately and all later recordings fail' % n.info['exit'], witness=dw.path_to(n, s), exit=n.info['exit']))
+    # the worker handle is known to be set wherever it is dereferenced
+    badn = None
+    for node, t, st, st_in in dw.at:
+        c = node.ast
+        if isinstance(c.func, ast.Attribute) and self_attr(c.func.value) == handle:
+            v = st_in.env.get(('F', 'self', handle))
+            if v is None:
+                f = st_in.facts.get(('field', 'self', handle))
+                known = f is not None and f[0] is False
+            else:
+                known = dw.is_none(v, st_in) is False
+            if not known:
+                badn = badn or (node, st_in)
+    cf.instance('the worker handle is known to be set at every call on it', ww.qualname, badn is None)
+    if badn:
+        node, st = badn
+        res.add(Finding('C13', 'C13.f', 'R-ORDER', node.file, node.frame.func.qualname, node.line, ast.unparse(node.ast),
+                        'the worker handle may be None here (e.g. forgotten after a timeout / death while the age already reached the rate): the run fails '
+                        'for every later recording instead of continuing with a fresh worker',
+                        witness=dw.path_to(node, st) if (node.id, st.key()) in dw.pred else None))
     late_inc = [n for m in eq.methods.values() if m not in (recyc, create) for n in ast.walk(m.node)
                 if isinstance(n, ast.AugAssign) and self_attr(n.target) == age]
     # recycle test and order
